@@ -15,7 +15,7 @@ ASSUMPTIONS = ["the comparison is against the library's own computation on a fre
 NSHARDS = {"quick": 32, "thorough": 64}
 BUDGET_S = {"quick": 200, "thorough": 2400}
 MIN_HITS = {
-    'quick': {"history": 4000, "sighash_step": 4000, "probe": 30000, "mut_after_fill": 1000, "slots_nonempty": 3000, "op_set_input": 500, "op_set_output": 500, "long_history": 20},
+    'quick': {"history": 8281, "sighash_step": 8197, "probe": 101439, "mut_after_fill": 2141, "slots_nonempty": 10024, "op_set_input": 5952, "op_set_output": 4447, "long_history": 48},
     'thorough': {"history": 139802, "sighash_step": 935724, "probe": 4768161, "mut_after_fill": 66234, "op_set_input": 614446, "op_set_output": 460201, "long_history": 5760},
 }
 
